@@ -29,13 +29,15 @@ PAIRS = [
     ("ip6", dict(ips=["::1"]), "[::1]", True),
     ("other", dict(dns=["other.test"]), "a.test", False),
     ("cn-only", dict(cn="a.test", san=False), "a.test", False),
+    # the asked name only STARTS with something the wildcard entry covers
+    ("wild-suffix", dict(dns=["*.w.test"]), "x.w.test.evil.test", False),
     # thorough only
     ("ip6zone", dict(ips=["fe80::1"]), "[fe80::1%25lo]", True),
     ("wild-apex", dict(dns=["*.w.test"]), "w.test", False),
     ("wild-deep", dict(dns=["*.w.test"]), "a.b.w.test", False),
     ("ip4-as-dns", dict(dns=["127.0.0.1"]), "127.0.0.1", False),
 ]
-QUICK_PAIRS = 8
+QUICK_PAIRS = 9
 
 
 def ref_match(cert, name):
@@ -316,7 +318,7 @@ def lattice(thorough, backend):
             out.append(c)
 
     # block 1: full product of the verification settings on three representative pairs
-    for pair in (("exact", "other", "cn-only", "wild", "ip4") if not thorough else pairs):
+    for pair in (("exact", "other", "cn-only", "wild", "wild-suffix", "ip4") if not thorough else pairs):
         for r in reqs:
             for t in trusts + (["ctx"] if backend == "ssl" else []):
                 for ah in ahs:
